@@ -59,6 +59,8 @@ def run_programs(case, bus, ex):
     rng = env.rng_for(*case["rs"])
     name, D, N = case["cls"], case["D"], case["N"]
     it = zoo.make_intent(rng, name, D, N, variant=case["v"], order=(None if zoo.SPECS[name]["linear"] else int(rng.integers(1, 5))))
+    _opt = env.rng_for(*case["rs"], "options")        # documented non-default options (own stream: the state draws stay as they were)
+    zoo.vary_dealiasing(_opt, it, 0.4); zoo.vary_contour(_opt, it, 0.3)
     st = zoo.build(ex, it)
     B, n = 4, 3
     U = make_states(rng, it, B)
@@ -138,7 +140,7 @@ def float_params(it):
     """(name, form) of every float / float-tuple constructor parameter of this intent."""
     out = []
     for k, v in it["kw"].items():
-        if isinstance(v, bool) or isinstance(v, int):
+        if isinstance(v, bool) or isinstance(v, int) or k in ("dealiasing_fraction", "circle_radius"):        # configuration, not a batched physical parameter
             continue
         if isinstance(v, float):
             out.append((k, "scalar"))
@@ -156,6 +158,8 @@ def run_params(case, bus, ex):
     rng = env.rng_for(*case["rs"])
     name, D, N = case["cls"], case["D"], case["N"]
     it = zoo.make_intent(rng, name, D, N, variant=case["v"] + 1, order=(None if zoo.SPECS[name]["linear"] else 2))
+    _opt = env.rng_for(*case["rs"], "options")
+    zoo.vary_dealiasing(_opt, it, 0.5); zoo.vary_contour(_opt, it, 0.3)
     # give union-typed parameters their documented array form
     if name in zoo.ARRAY_CLASSES:
         for k in list(it["kw"]):
@@ -190,22 +194,39 @@ def run_params(case, bus, ex):
         S = scale_of(u, ref)
         lanes_differ = not np.array_equal(ref[0], ref[1])
         bus.judge("param_batch", float(np.max(np.abs(got - ref))) / S if got.shape == ref.shape else np.inf, TOL, sig, sample=info, witness=info, nontrivial=lanes_differ)
-        # a batch that contains an EXACT zero of this parameter (boundary value: concrete-zero shortcuts must agree with the traced construction)
+        # a batch that contains an EXACT zero of this parameter (boundary value: concrete-zero shortcuts must agree with the traced construction),
+        # under the drawn options and, for semi-linear classes, once more under another dealiasing fraction (a shortcut branch must honour the same options)
         if pname != "dt":
-            valz = np.stack([np.zeros_like(np.asarray(base, float)), np.asarray(base, float), 2 * np.asarray(base, float)])
-            try:
-                refz = np.stack([np.asarray(make(jnp.asarray(valz[i]) if form != "scalar" else float(valz[i]))(u)) for i in range(B)])
-            except Exception:  # noqa: BLE001
-                continue                       # zero is not an admissible value for this parameter
-            if not np.all(np.isfinite(refz)):
-                continue
-            try:
-                gotz = np.asarray(eqx.filter_vmap(lambda s: s(u))(eqx.filter_vmap(make)(jnp.asarray(valz))))
-            except Exception as e:  # noqa: BLE001
-                bus.flag("param_batch", f"{type(e).__name__}: {str(e)[:120]}", sig + ("with zero",), witness=dict(info, exc=type(e).__name__, batch="contains an exact zero"))
-                continue
-            Sz = scale_of(u, refz)
-            bus.judge("param_batch", float(np.max(np.abs(gotz - refz))) / Sz if gotz.shape == refz.shape else np.inf, TOL, sig + ("with zero",), witness=dict(info, batch="contains an exact zero"))
+            variants = [("", it)]
+            if not spec["linear"]:
+                cur = it["kw"].get("dealiasing_fraction", 2 / 3)
+                alt = 0.5 if abs(cur - 0.5) > 1e-9 and name not in zoo.HALF_FRACTION else 0.8
+                variants.append((f"dealiasing_fraction={alt}", dict(it, kw=dict(it["kw"], dealiasing_fraction=alt))))
+            for vname, itv in variants:
+
+                def makev(val, pname=pname, form=form, itv=itv):
+                    kw = zoo.convert_kw(name, {k: v for k, v in itv["kw"].items() if k != pname})
+                    cls = zoo.get_class(ex, name)
+                    kw[pname] = tuple(val[i] for i in range(val.shape[0])) if form == "tuple" else val
+                    if spec["sig"] == "phys":
+                        return cls(D, itv["L"], N, itv["dt"], **kw)
+                    return cls(D, N, **kw)
+
+                infov = dict(intent=itv, parameter=pname, form=form, batch="contains an exact zero")
+                valz = np.stack([np.zeros_like(np.asarray(base, float)), np.asarray(base, float), 2 * np.asarray(base, float)])
+                try:
+                    refz = np.stack([np.asarray(makev(jnp.asarray(valz[i]) if form != "scalar" else float(valz[i]))(u)) for i in range(B)])
+                except Exception:  # noqa: BLE001
+                    continue                       # zero is not an admissible value for this parameter
+                if not np.all(np.isfinite(refz)):
+                    continue
+                try:
+                    gotz = np.asarray(eqx.filter_vmap(lambda s: s(u))(eqx.filter_vmap(makev)(jnp.asarray(valz))))
+                except Exception as e:  # noqa: BLE001
+                    bus.flag("param_batch", f"{type(e).__name__}: {str(e)[:120]}", sig + ("with zero", vname), witness=dict(infov, exc=type(e).__name__))
+                    continue
+                Sz = scale_of(u, refz)
+                bus.judge("param_batch", float(np.max(np.abs(gotz - refz))) / Sz if gotz.shape == refz.shape else np.inf, TOL, sig + ("with zero", vname), witness=infov)
 
 
 def run_wrapper(case, bus, ex):
